@@ -51,6 +51,7 @@ type c03 struct {
 	truncComplete int
 	// set for the next loopbackReceiveFrag: the packets expected before the read limit error
 	limitExpect *[]packet.Generic
+	prop        string // "c03" or "c19": prefix of the clauses both commands share
 }
 
 // emitOracle walks the stream the naive way and records, for every candidate
@@ -158,6 +159,20 @@ func (x *c03) decCase(stream []byte, sizes []int, lim int64, endErr bool, sent [
 		x.c.Stat("direct_truncation", 1)
 	}
 	x.truncated = false
+	// the limit is a bound on every packet that is handed out
+	if lim > 0 {
+		over := -1
+		for i, p := range got {
+			if int64(p.Len()) > lim {
+				over = i
+			}
+		}
+		if over >= 0 {
+			x.c.Emit("direct c03_limit_refuses %d FAIL packet %d of %d bytes was delivered although the read limit is %d", n, over, got[over].Len(), lim)
+		} else {
+			x.c.Emit("direct c03_limit_refuses %d ok", n)
+		}
+	}
 	// refused before it is buffered: with a byte-at-a-time source, a limit error
 	// costs at most 5 bytes of the refused packet
 	if err == packet.ErrReadLimitExceeded && maxInt(sizes) == 1 {
@@ -500,7 +515,7 @@ func oneChunk(n int) []int {
 }
 
 func runC03(c *hx.Ctx) {
-	x := &c03{c: c, oracle: map[string]bool{}}
+	x := &c03{c: c, oracle: map[string]bool{}, prop: "c03"}
 	defer x.finishPanics()
 	if c.Replay != "" {
 		x.replay(c.Replay)
@@ -572,6 +587,10 @@ func (x *c03) replay(path string) {
 			x.gatedIntact()
 		case "closebehind":
 			x.closeBehindSend()
+		case "rearm":
+			x.timeoutRearmed(kv(f, "kind"))
+		case "closereal":
+			x.closeFlushesReal(kv(f, "kind"), hx.Atoi(kv(f, "k")))
 		case "stall":
 			x.stalledSend(kv(f, "kind"), kv(f, "trigger"), kv(f, "big") == "1")
 		case "tcp":
